@@ -179,28 +179,42 @@ def prepare_model(spec, cfgspec, json_bytes, flavor='asan', scratch_root=None, f
 
 
 def _classify(output, generated_names):
-    """Attribute a compile failure.  The first file position (file:line:col) among all diagnostics - errors, notes
-    and 'in instantiation of ... requested here' - that names either a file returned by the builder or a harness
-    file decides: a template error deep inside a system header is attributed to whoever instantiated it.
-    An undefined reference to a shell member is dznpy's too."""
+    """Attribute a compile failure by the file in which the FIRST error is located: a file returned by the builder
+    => 'generated' (dznpy's); the mock model header, the glue or a harness header => harness.  An error inside a
+    system header is attributed to the first generated or harness file named by the notes that follow it
+    ('in instantiation of ... requested here', 'candidate ...', 'while substituting ...').  An undefined reference
+    to a shell member is dznpy's too."""
     import re
-    pos = re.compile(r'^(?:In file included from )?([^\s:]+):(\d+)(?::(\d+))?[:,]')
-    if not any(' error' in l or 'error:' in l for l in output.splitlines()):
-        return 'harness:unknown'
-    for line in output.splitlines():
-        m = pos.match(line.strip())
-        if m:
-            fname = os.path.basename(m.group(1))
-            if fname in generated_names:
-                return 'generated'
-            if fname in ('glue.cc', 'harness.hh', 'harness.cc', 'kernel.h', 'simtypes.hh'):
-                # the glue includes the shell header (or, for global-namespace shells, the shell source): keep looking
-                # only if this is an include-chain line
-                if line.strip().startswith('In file included from'):
-                    continue
-                return 'harness:' + fname
+    pos = re.compile(r'^([^\s:]+):(\d+):(\d+): (?:fatal )?(error|note|warning)')
+    harness_files = ('glue.cc', 'harness.hh', 'harness.cc', 'kernel.h', 'simtypes.hh', 'mw_harness.cc')
+
+    def owner(fname):
+        if fname in generated_names:
+            return 'generated'
+        if fname in harness_files or fname.endswith('.hh') and '/' not in fname and fname not in generated_names:
+            return 'harness:' + fname
+        return None
+
+    lines = output.splitlines()
+    for i, line in enumerate(lines):
         if 'undefined reference' in line:
             return 'generated'
+        m = pos.match(line.strip())
+        if not m or m.group(4) != 'error':
+            continue
+        full = m.group(1)
+        fname = os.path.basename(full)
+        if full.startswith('/usr/') or '/include/c++/' in full or '/lib/' in full:
+            for follow in lines[i + 1:]:
+                m2 = pos.match(follow.strip())
+                if m2:
+                    if m2.group(4) == 'error':
+                        break
+                    o = owner(os.path.basename(m2.group(1))) if not m2.group(1).startswith('/usr/') else None
+                    if o:
+                        return o
+            return 'harness:system-header'
+        return owner(fname) or ('harness:' + fname)
     return 'harness:unknown'
 
 
